@@ -19,21 +19,10 @@
 From Coq Require Import ZArith List Ascii Bool NArith Lia Sorting.Permutation.
 From Cspuz Require Import Lib.PyErr Codec.Comb Codec.CombWf Codec.CombBasics Codec.CombLeaf Codec.CombRoundTrip
   Codec.RoomsGrid Codec.RoomsProofs Codec.RoomsTotal
-  Codec.TotalModel Codec.TotalLeaf Codec.Total Codec.TotalDims Codec.TotalRedecode Codec.TotalReencLeaf.
+  Codec.TotalModel Codec.TotalLeaf Codec.Total Codec.TotalDims Codec.TotalRedecode Codec.TotalReencModel Codec.TotalReencLeaf.
 Import ListNotations.
 Local Open Scope Z_scope.
 
-(* ------------------------------------------------------------------ the side condition *)
-Fixpoint reenc_ok (c : comb) : bool :=
-  match c with
-  | FixStr _ | Dict _ _ | Spaces _ _ | DecInt | HexInt | IntSpaces _ _ _ | MultiDigit _ _ | Rooms _ _ => true
-  | OneOf l => forallb pleaf l
-  | Tupl l => forallb reenc_ok l
-  | Seq c1 n => sbase c1 && (0 <=? n)
-  | Grid c1 hw => sbase c1 && match hw with Some (h, w) => (0 <=? h) && (0 <=? w) | None => true end
-  | ValuedRooms c1 _ _ => sbase c1
-  | Custom _ => false
-  end.
 
 (* ------------------------------------------------------------------ the values a single-item term decodes to *)
 Fixpoint dom (e : env) (c : comb) (v : pv) {struct c} : Prop :=
